@@ -42,6 +42,7 @@ type Contract struct {
 	Getter    bool // result is a function of receiver and arguments only; no effects (trusted)
 	Preserves []string // type names whose objects keep their content (used with an unspecified/heap footprint)
 	Safe      bool
+	SafeOnly  []string // restrict safety obligations to descriptions mentioning one of these
 	Requires  []*Clause
 	Ensures   []*Clause
 	Modifies  []SExpr // nil = unspecified (anything)
@@ -590,6 +591,7 @@ func (ct *Contract) addClause(txt, file string, line int) error {
 	switch kw {
 	case "safe":
 		ct.Safe = true
+		ct.SafeOnly = append(ct.SafeOnly, strings.Fields(rest)...)
 	case "pure":
 		ct.Pure = true
 		ct.HasMod = true
